@@ -52,11 +52,26 @@ def column_value(f, col):
 
 
 def count_status(repo, canon, f, expr):
-    """observations_waiting(): sum([1 if x.status == S else 0 for x in self.observations]) -> S"""
+    """observations_waiting(): sum([1 if x.status == S else 0 for x in self.observations]) -> S
+    (also a counting loop: c = 0; for x in observations: if x.status == S: c += 1)"""
     if isinstance(expr, ast.Call) and isinstance(expr.func, ast.Attribute):
         cals, exact = repo.resolve_call(expr, f)
         if len(cals) == 1:
             g = cals[0]
+            from .common import counting_parts, resolve_name_chain
+            for n in walk_no_nested(g.node):
+                if isinstance(n, ast.Return) and isinstance(n.value, ast.Name):
+                    nm = resolve_name_chain(g, n.value)
+                    cp = counting_parts(g, nm.id) if isinstance(nm, ast.Name) else None
+                    if cp is not None:
+                        lp, conds = cp
+                        if canon.c(lp.iter, Frame(g)) == 'Instrument.observations' and len(conds) == 1 and \
+                                conds[0][1] and isinstance(conds[0][0], ast.Compare) and isinstance(
+                                conds[0][0].ops[0], (ast.Eq, ast.Is)):
+                            l, r = conds[0][0].left, conds[0][0].comparators[0]
+                            for a, b in ((l, r), (r, l)):
+                                if isinstance(a, ast.Attribute) and a.attr == 'status':
+                                    return 'count(status == %s)' % ast.unparse(b)
             for n in walk_no_nested(g.node):
                 if isinstance(n, ast.Return) and n.value is not None:
                     v = n.value
@@ -103,6 +118,7 @@ def check(repo, res, tier):
                 'the monitor is not the first process of a timestep: row t would report a state in '
                 'which some actors have already acted in step t')
     # M2
+    pc = ProvCanon(repo)
     m = repo.func('Monitor.run')
     res.analysed(m, len(cached_paths(m)))
     loops = [n for n in walk_no_nested(m.node) if isinstance(n, ast.While)]
@@ -127,10 +143,9 @@ def check(repo, res, tier):
                 n = e.node
                 if isinstance(n, ast.Assign) and canon.c(n.targets[0], e.frame) == 'Monitor.df':
                     v = n.value
-                    if isinstance(v, ast.Call) and call_name(v) == 'concat' and any(
-                            isinstance(x, ast.Call) and call_name(x) == 'collate_actor_dataframes'
-                            for x in ast.walk(v)) and any(
-                            isinstance(x, ast.Attribute) and x.attr == 'df' for x in ast.walk(v)):
+                    vp = pc.p(v, e.frame)
+                    if isinstance(v, ast.Call) and call_name(v) == 'concat' and \
+                            'Monitor.collate_actor_dataframes()' in vp and 'Monitor.df' in vp:
                         rows += 1
                     else:
                         ok, why = False, 'the table is rebuilt by `%s`' % short(ast.unparse(n))
@@ -160,7 +175,6 @@ def check(repo, res, tier):
     (res.ok if need <= got else res.bad)('C12.M3', cad, cad.node, 'row joins cluster, buffer, instrument, scheduler snapshots',
                                          'ok' if need <= got else 'the row no longer contains the snapshot of %s' % sorted(need - got))
     # M3
-    pc = ProvCanon(repo)
     for q, cols in COLUMNS.items():
         f = repo.func(q)
         fr = Frame(f)
@@ -179,7 +193,15 @@ def check(repo, res, tier):
                 e = v
                 while isinstance(e, ast.Call) and isinstance(e.func, ast.Name) and e.func.id == 'int':
                     e = e.args[0]
-                a = affine(canon, e, fr)
+                from .common import path_affine_env
+                paths_ = cached_paths(f)
+                env_ = {}
+                for p_ in paths_:
+                    idx_ = [i for i, ev in enumerate(p_.events) if ev.node is n]
+                    if idx_:
+                        env_ = path_affine_env(canon, p_, p_.events[idx_[0]].frame, idx_[0])
+                        break
+                a = affine(canon, e, fr, env_ or None)
                 wa = affine(canon, ast.parse(want_src(want), mode='eval').body, None)
                 gs = repr(a)
                 ok = gs == want_norm(want)
